@@ -252,14 +252,23 @@ PROPS = {
     "C05": {
         "props_module": "Redproxy.Props.C05",
         "mode": "c05", "model_mode": "codec",
+        "translators": ["acceptsites.py"],
         "rule": "malformed-first: for generated valid messages of each of 12 decoder entry points (SOCKS request/reply readers, HTTP "
                 "request/response head readers, RPFM from_buffer/read_head/stream reader, SOCKS-UDP header, h11c_connect reading a hostile "
                 "upstream reply incl. Session-Id, h11c_handshake, SOCKS connector negotiation, TargetAddress parser): every value of each of "
                 "the first bytes, truncation at every offset, random garbage/insert/delete; the (tag,len) grid of RPFM address attributes; "
-                "QUIC datagram sequences into Fragments<Frame>; non-trivial = not the unmodified valid message; distinct = distinct case lines",
+                "QUIC datagram sequences into Fragments<Frame>; and the stall matrix: real http / http+tls / socks / socks+tls / quic / reverse-udp "
+                "listeners in process, three clients stalled at each of 18 handshake stages (TCP accept only, partial / complete TLS ClientHello, "
+                "TLS done + partial request, QUIC Initial only (lossy forwarder), QUIC connection without stream, partial request on a stream, "
+                "garbage datagrams, a UDP flood into a session whose upstream stopped reading), then a fresh client per listener within 3 s; non-trivial = not the unmodified valid message; distinct = distinct case lines",
         "nontrivial": lambda c, i: True,
         "trusted_base": ["hand-written decoder models (Socks/Http/Frames/Fragment) tied to the code by outcome-class correspondence under catch_unwind",
-                         "dev profile (overflow checks on) with panic=unwind override so that panics are observable"],
+                         "dev profile (overflow checks on) with panic=unwind override so that panics are observable",
+                         "translate/acceptsites.py (textual) extracts the awaits each listener's accept loop performs outside tokio::spawn and classifies them; "
+                         "the accept-loop model (Model/Accept.lean) abstracts a listener to 'take a client, perform these waits, spawn'; a blocking send into a "
+                         "bounded per-session queue (reverse UDP) is classified `squeue`, not `peer`: the session owns a connected socket, so only datagrams "
+                         "racing with the session's creation pass through the loop",
+                         "the stall matrix is timing based (3 s bound on loopback)"],
         "assumptions": ["resource exhaustion (unbounded read_line / read_until buffers) is outside the model"],
     },
     "C12": {
